@@ -10,14 +10,15 @@ Record case15 := mk15 {
   c_impl : impl_res }.
 
 Definition eval15 (c : case15) : verdict :=
-  let cfg := {| max_passes := c_mp c; max_flips := c_mf c; max_bad := c_mb c; old_scan := kl_first_scan_unwraps; old_rewind := kl_rewind_keeps_first_swap |} in
+  let cfg := {| max_passes := c_mp c; max_flips := c_mf c; max_bad := c_mb c; old_scan := kl_first_scan_unwraps; old_rewind := kl_rewind_keeps_first_swap;
+               few_ids_return := kl_few_ids_return |} in
   let g := c_g c in
   let p0 := c_p0 c in
   let r := kl cfg (kl_fuel g p0) g (c_wlen c) p0 in
   let corr := res_matches r (c_impl c) in
-  let two_ids := Nat.eqb (length (uniq [] p0)) 2 in
+  let two_ids := Nat.leb (length (uniq [] p0)) 2 in
   (* usage contract of the property: square well-formed symmetric CSR matrix with positive
-     weights, as many vertex weights as vertices, exactly two part ids in use *)
+     weights, as many vertex weights as vertices, at most two part ids in use *)
   let in_contract :=
     wf_graphb g (length p0) && rows_sortedb g && Nat.eqb (c_wlen c) (length p0)
     && symmetricb g && pos_edgesb g && two_ids in
